@@ -5,6 +5,8 @@
 
 package routing
 
+//@ load-pkg github.com/lightningnetwork/lnd/lnwire
+
 //@ func newRoute
 //@   props C19
 //@   bounds-safe
